@@ -5,8 +5,11 @@ import (
 	"bytes"
 	"encoding/base64"
 	"encoding/binary"
+	"encoding/json"
 	"fmt"
 	"io"
+	"os"
+	"path/filepath"
 	"runtime"
 	"runtime/debug"
 	"strings"
@@ -423,4 +426,15 @@ func inflated(pack []byte) bool {
 		}
 	}
 	return false
+}
+
+// fuzz failures are written as ordinary replay files so that the driver treats them like rapid's
+func writeFuzzFailure(c Case, err error) {
+	b, _ := json.Marshal(map[string]interface{}{"property": "C17", "sub": "decode", "error": err.Error(), "case": c})
+	os.WriteFile(filepath.Join(evid.OutDir(), "fail-decode.json"), b, 0o644)
+}
+
+func writeFuzzFailureRecv(c RecvCase, err error) {
+	b, _ := json.Marshal(map[string]interface{}{"property": "C17", "sub": "receive", "error": err.Error(), "case": c})
+	os.WriteFile(filepath.Join(evid.OutDir(), "fail-receive.json"), b, 0o644)
 }
